@@ -525,6 +525,20 @@ def run_through_container(ctx, case):
             path = os.path.join(d, twin + ".tdf")
             with open(path, "wb") as f:
                 f.write(image)
+            # every table entry decoded and encoded again on its own, nothing of it looked at in between: canonical bytes either way
+            from basictdf.basictdf import TdfEntry
+
+            def entries_again():
+                out_ = []
+                for i_ in range(4):
+                    e_ = TdfEntry._build(io.BytesIO(image[64 + 288 * i_:64 + 288 * (i_ + 1)]))
+                    s_ = io.BytesIO()
+                    e_._write(s_)
+                    out_.append(s_.getvalue())
+                return out_
+            ok_e, enc_e = ctx.must(entries_again, f"{name}/entries/decode-encode-{twin}", f"decoding and re-encoding the table entries of the {twin} file")
+            if ok_e:
+                stored.setdefault("entries", {})[twin] = enc_e
 
             def again():
                 t = Tdf(path)
@@ -546,6 +560,20 @@ def run_through_container(ctx, case):
             if len(ent) != 1:
                 ctx.fail(f"{name}/{via}/block-count", f"after storing the {name} block again ({via}, {twin} file) the table holds {len(ent)} blocks of that type")
             stored[twin] = data[ent[0]["offset"]:ent[0]["offset"] + ent[0]["size"]]
+            # the block sat in slot 0: every slot of the table was written again by the store-again - text fields and pad words are canonical
+            stored.setdefault("table", {})[twin] = [(data[64 + 288 * i_ + 28:64 + 288 * i_ + 32], data[64 + 288 * i_ + 32:64 + 288 * (i_ + 1)]) for i_ in range(4)]
+        ea, eb = stored.get("entries", {}).get("zero-filled"), stored.get("entries", {}).get("scrambled")
+        if ea is not None and eb is not None and ea != eb:
+            i_ = next(k for k in range(4) if ea[k] != eb[k])
+            j_ = next(k for k in range(288) if ea[i_][k] != eb[i_][k])
+            ctx.fail(f"{name}/entries/re-encode-depends-on-dont-care-bytes", f"table entry {i_} of two files that differ only in don't-care bytes (filler {kind}): decoded and encoded "
+                                                                             f"again (nothing looked at in between) the two encodings differ at byte {j_} of the entry")
+        ta, tb = stored["table"]["zero-filled"], stored["table"]["scrambled"]
+        if ta != tb:
+            i_ = next(k for k in range(4) if ta[k] != tb[k])
+            ctx.fail(f"{name}/{via}/rewritten-entries-depend-on-dont-care-bytes", f"{name}: after `{via}` of the first block every table entry was written again; entry {i_} of the file "
+                                                                                  f"that had filler ({kind}) in its don't-care bytes differs from the zero-filled twin's in its "
+                                                                                  f"{'pad word' if ta[i_][0] != tb[i_][0] else 'comment field'}")
         a, b = stored["zero-filled"], stored["scrambled"]
         if a != b:
             i = next((k for k in range(min(len(a), len(b))) if a[k] != b[k]), min(len(a), len(b)))
@@ -557,6 +585,74 @@ def run_through_container(ctx, case):
     finally:
         env.rmdir(d)
     ctx.case(case, bool(changed), labels=[name, f"via={via}", f"fill={kind}", "behind" if case["behind"] else "last"])
+
+
+def enum_full_width(tier):
+    """optical-setup names that fill their 32-byte field completely (no terminator - the reader takes the whole field as text), in files whose
+    OTHER text fields (the 256-byte entry comments, read first) carry filler behind their terminators"""
+    for kind in ALL_FILLS:
+        for which in ("lens", "type", "name", "all"):
+            for n_ch in (1, 3):
+                for access in ("getter-loop", "get_block", "blocks"):
+                    yield {"fill": [kind, 3], "which": which, "channels": n_ch, "access": access}
+
+
+def run_full_width(ctx, case):
+    from basictdf import Tdf
+    from basictdf.tdfBlock import BlockType
+
+    kind, seed = case["fill"]
+    names = {"lens": "L" * 32, "type": "T" * 31 + "\u00e9", "name": "N" * 32}
+    chans = []
+    for i in range(case["channels"]):
+        c = {"index": i, "lens": f"lens{i}", "type": f"type{i}", "name": f"cam{i}", "vp": [0, 0, 10 + i, 20 + i]}
+        chans.append(c)
+    payload = bytearray(reftdf.encode({"t": "optical", "format": 1, "channels": chans}))
+    want = []
+    for i, c in enumerate(chans):
+        base = 8 + 120 * i + 8
+        for j, key in enumerate(("lens", "type", "name")):
+            if case["which"] in (key, "all") and (i + j) % 2 == 0 or case["channels"] == 1 and case["which"] in (key, "all"):
+                text = names[key][:-1] + str(i)[-1]
+                payload[base + 32 * j:base + 32 * (j + 1)] = text.encode("cp1252")      # 32 bytes of text, no terminator
+                c[key] = text
+        want.append((c["lens"], c["type"], c["name"]))
+    blocks = [{"type": reftdf.TYPE_CODE["events"], "format": 1, "payload": reftdf.encode(_sweep_block_specs()[0]) if _sweep_block_specs()[0]["t"] == "events" else
+               reftdf.encode({"t": "events", "format": 1, "startTime": 0, "events": []}), "comment": "short", "cdate": 1, "mdate": 2, "adate": 3},
+              {"type": reftdf.TYPE_CODE["optical"], "format": 1, "payload": bytes(payload), "comment": "the cameras", "cdate": 1, "mdate": 2, "adate": 3}]
+    image, spans = reftdf.build_image(6, blocks, dates=[1, 2, 3], with_spans=True)
+    scr, changed = scramble(image, spans, kind, seed)
+    d = env.fresh_dir()
+    try:
+        got = {}
+        for twin, img in (("zero-filled", image), ("scrambled", scr)):
+            path = os.path.join(d, twin + ".tdf")
+            with open(path, "wb") as f:
+                f.write(img)
+
+            def read():
+                with Tdf(path) as t:
+                    if case["access"] == "get_block":
+                        b = t.get_block(BlockType(reftdf.TYPE_CODE["optical"]))
+                    elif case["access"] == "blocks":
+                        b = [x for x in t.blocks if x.type.value == reftdf.TYPE_CODE["optical"]][0]
+                    else:
+                        b = [t.get_block(i) for i in range(len(t))][1]
+                    return [(c.lens_name, c.camera_type, c.camera_name) for c in b.channels]
+            ok, r = ctx.must(read, f"full-width/read-{twin}", f"reading optical-setup names that fill their 32-byte fields, from the {twin} file")
+            if not ok:
+                return
+            got[twin] = r
+        if got["scrambled"] != got["zero-filled"]:
+            i = next(k for k in range(len(want)) if got["scrambled"][k] != got["zero-filled"][k])
+            ctx.fail("full-width/names-depend-on-other-fields-filler", f"optical channel {i}: names read {got['scrambled'][i]!r} from the file whose entry comments carry filler "
+                                                                       f"({kind}) behind their terminators, {got['zero-filled'][i]!r} from the zero-filled twin")
+        if got["zero-filled"] != want:
+            i = next(k for k in range(len(want)) if got["zero-filled"][k] != want[k])
+            ctx.fail("full-width/names-differ-from-stored", f"optical channel {i}: names read {got['zero-filled'][i]!r}, the fields hold {want[i]!r}")
+    finally:
+        env.rmdir(d)
+    ctx.case(case, bool(changed), labels=["full-width-names", case["which"], f"fill={kind}", case["access"]])
 
 
 READER_ENCODINGS = [None, "windows-1252", "cp1252", "latin-1", "iso8859-15", "ascii", "cp437", "mac-roman", "utf-8", "utf8", "UTF-8", "U8", "utf_8"]
@@ -629,6 +725,10 @@ SUBS = [
         rule="nine block types (two labelled items, non-ASCII text, short and long labels) in a 4-slot file, every don't-care byte of block, header and table overwritten with "
              "6 filler kinds, then stored again through the container (tdf.x = tdf.x / replace_block(get_block) / remove_block + add_block; last block or one behind it) "
              "next to the same on the zero-filled twin: the stored blocks are identical and of the original size; finite, enumerated", nontrivial_required=False),
+    Sub("full-width-names", run_full_width, kind="enum", enumerate=enum_full_width, shards=(4, 8),
+        rule="files whose optical-setup names fill their 32-byte fields completely (no terminator; lens / type / name / all, 1 or 3 cameras, non-ASCII last character) and whose "
+             "entry comments - read before any block - carry each of 14 fillers behind their terminators, read through get_block / .blocks / a loop over all slots: the names "
+             "are the 32 characters stored, the same as from the zero-filled twin; finite, enumerated", nontrivial_required=False),
     Sub("string-reader-encodings", run_reader, kind="enum", enumerate=enum_reader, shards=(4, 8),
         rule="BTSString.read / bread called directly with each value of the public encoding argument under which the terminator is one zero byte (default, cp1252 spellings, "
              "latin-1, iso8859-15, ascii, cp437, mac-roman, five spellings of utf-8) x field sizes {1,2,4,32,256} x texts (empty, short, size-1, size, non-ASCII) x 19 "
